@@ -151,6 +151,7 @@ def run(prog, tier, extra=None):
     R3 = res.rule("C11.fallible-unwrapped", "results of workspace functions that can return Err are not unwrapped in handlers", floor=0)
     R4 = res.rule("C11.decoders", "no decoder that can panic on input is reachable from the handlers", floor=15)
     R6 = res.rule("C11.sized-alloc", "capacities requested in handler-reachable bodies are constants or lengths of existing collections", floor=0)
+    R7 = res.rule("C11.reject-leaves-pool", "the path that disposes of a refused block removes nothing from the transaction pool and releases no input reservation", floor=5)
     R5 = res.rule("C11.peer-indexing", "indexing into fields of peer-decoded structures is covered by a dominating length fact", floor=60)
 
     _r2_cov = {}
@@ -413,10 +414,32 @@ def run(prog, tier, extra=None):
                                 "%s requests a capacity of `%s`, which is not a constant or the length of an existing collection: a peer-influenced value "
                                 "(or an underflowing difference) aborts the handler with 'capacity overflow'" % (p.replace(CORE, "")[-60:], show(e)[:60]), b.loc(bb)))
 
+    # "local state used by honest peers is unaffected by rejected input": a block that fails validation is disposed of by
+    # add_block_failure; whatever a peer put into that block, nothing reachable from there may take pooled transactions (or their
+    # input reservations) away - the block's own transactions may only be offered back through the insertion point.
+    from ..fields import FieldAnalysis as _FA7
+    fa7 = _FA7(prog)
+    ABF = CORE + "consensus::blockchain::Blockchain::add_block_failure"
+    if prog.body(ABF + "::{closure#0}") is None:
+        raise LookupError("Blockchain::add_block_failure not found")
+    fail_reach = cg.reachable_from([ABF + "::{closure#0}"], kinds=("call", "await", "creates")) | {ABF + "::{closure#0}"}
+    n7 = 0
+    for p7 in sorted(fail_reach):
+        b7 = cg.bodies.get(p7)
+        if b7 is None or b7.is_promoted or not p7.startswith("saito_"):
+            continue
+        n7 += 1
+        for fld in ("transactions", "utxo_map"):
+            for s7 in fa7.sites(b7, "mempool::Mempool", fld):
+                if s7[3] in ("remove", "replace", "unknown"):
+                    res.add(Finding(R7, "C11.reject-leaves-pool|%s|%s" % (p7.replace("::{closure#0}", ""), fld),
+                                    "%s, reachable from add_block_failure, removes from Mempool.%s: a block a peer made up (and the node refused) takes honest pooled "
+                                    "transactions or their input reservations with it" % (p7.replace(CORE, "").replace("::{closure#0}", ""), fld), b7.loc(s7[1])))
+    res.instance(R7, n7)
     # a handler that waits for a lock in an inverted order never returns: lock-order findings inside handler-reachable bodies
     from ._include import include
     live_plain = {q.replace("::{closure#0}", "") for q in live}
-    include(res, prog, tier, extra, "c20", ["C20.inversion", "C20.reacquire"],
+    include(res, prog, tier, extra, "c20", ["C20.inversion", "C20.reacquire", "C20.read-reentry"],
             "a handler blocked in a lock-order cycle does not return normally",
             keep=lambda f: any(part.replace("::{closure#0}", "") in live_plain for part in f.key.split("|")[1:2]))
     # "local state used by honest peers is unaffected by rejected input": a refused transaction must leave no input reservations behind
